@@ -469,7 +469,9 @@ def main(argv=None):
         ctx.close()
         return 0 if not (ctx.failures or ctx.disagreements or ctx.errors) else 1
 
-    # 4. corpus, then generated cases
+    # 4. corpus, then generated cases (the case budget starts now: build/audit time is not charged to it)
+    ctx.deadline = time.time() + (float(os.environ.get("VERIF_QUICK_S", 55)) if tier == "quick"
+                                  else float(os.environ.get("VERIF_THOROUGH_S", 720)))
     run_cases(ctx, mod, corpus_cases(prop), limit_time=False)
     run_cases(ctx, mod, mod.generate(ctx))
 
